@@ -96,14 +96,33 @@ def multiply(
     #    if out is None:
     #        out_ = numpoly.clean_attributes(out_)
 
-    numpoly.cmultiply(
-        x1.exponents,
-        x2.exponents,
-        x1.coefficients,
-        x2.coefficients,
-        x1.KEY_OFFSET,
-        out_.values.ravel(),
+    largest = (
+        int(x1.exponents.max(initial=0))
+        + int(x2.exponents.max(initial=0))
+        + x1.KEY_OFFSET
     )
+    if largest < 128:
+        numpoly.cmultiply(
+            x1.exponents,
+            x2.exponents,
+            x1.coefficients,
+            x2.coefficients,
+            x1.KEY_OFFSET,
+            out_.values.ravel(),
+        )
+    else:
+        # The compiled kernel formats each key character as a single byte;
+        # larger exponent sums need the keys to be built as full code points.
+        seen = set()
+        for expon1, coeff1 in zip(x1.exponents, x1.coefficients):
+            for expon2, coeff2 in zip(x2.exponents, x2.coefficients):
+                key = (expon1 + expon2 + x1.KEY_OFFSET).ravel()
+                key = key.view(f"U{len(expon1)}").item()
+                if key in seen:
+                    out_.values[key] += coeff1 * coeff2
+                else:
+                    out_.values[key] = coeff1 * coeff2
+                seen.add(key)
     if out is None:
         out_ = numpoly.clean_attributes(out_)
 
